@@ -14,7 +14,7 @@
    is t; it returns the result and the table afterwards. *)
 From Coq Require Import String.
 From Verif Require Import Lib.Base Lib.Sx Lib.GoSem Model.Amf0 Model.RtmpPacket.
-From Verif Require Import Proofs.Amf0 Proofs.RtmpPacket Proofs.RtmpPacketTx.
+From Verif Require Import Gen.Gen_rtmp Proofs.Amf0 Proofs.RtmpPacket Proofs.RtmpPacketTx Proofs.RtmpPacketGen Proofs.RtmpPacketWf.
 Open Scope N_scope.
 
 (* The constants the statements below mention are the protocol's (regenerated from rtmp.go). *)
@@ -51,7 +51,7 @@ Theorem c03_user_control et d x : et < 65536 ->
   unmarshal new_user_control (marshal p) = Ok p.
 Proof.
   intros He Hd Hx p. split.
-  - rewrite marshal_size. cbn [psize p]. unfold uc_size.
+  - rewrite marshal_size. cbn [psize p]. rewrite uc_size_spec.
     change etFmsEvent0 with 26. change etSetBufferLength with 3.
     destruct (N.eqb_spec et 26) as [->|]; [reflexivity|]. destruct (et =? 3); reflexivity.
   - apply (unmarshal_marshal p). cbn [wf_pkt p].
@@ -74,6 +74,27 @@ Proof.
   - apply (unmarshal_marshal (PWinAck n)). exact Hn.
   - apply (unmarshal_marshal (PSetPeerBw n lt)). cbn [wf_pkt]. unfold wf_u32. rewrite Hn, Hl. reflexivity.
 Qed.
+
+(* ---- arbitrary input: what decodes is a well-formed packet and a fixed point ----
+   For EVERY byte string (bytes < 256) that a packet unmarshaler accepts, on a receiver whose
+   untouched fields are the constructor's ([clean_receiver]: no Args, ExtraData 0), the result is
+   a well-formed packet of the receiver's type, its Size() is at most the input length (trailing
+   bytes are ignored, non-canonical booleans shrink nothing), and its own bytes decode to it
+   again.  The same for whatever DecodeMessage returns, any table, any message type. *)
+Theorem c03_decoded_wellformed r data p :
+  clean_receiver r = true -> wf_bytes data -> unmarshal r data = Ok p ->
+  wf_pkt p = true /\ kind_of p = kind_of r /\ psize p <= lenN data.
+Proof. exact (unmarshal_decoded r data p). Qed.
+
+Theorem c03_decoded_fixed_point r data p :
+  clean_receiver r = true -> wf_bytes data -> unmarshal r data = Ok p ->
+  unmarshal r (marshal p) = Ok p /\ psize p <= lenN data.
+Proof. exact (unmarshal_fixed_point r data p). Qed.
+
+Theorem c03_decode_message_decoded t mt payload p t' :
+  wf_bytes payload -> decode_message t mt payload = (Ok p, t') ->
+  wf_pkt p = true /\ psize p <= lenN payload /\ unmarshal (receiver_for p) (marshal p) = Ok p.
+Proof. exact (decode_message_decoded t mt payload p t'). Qed.
 
 (* ---- dispatch: the type that arrives is the one the protocol defines ----
    Table, in full.  Command/data message (types 20, 18, and 17/15 with the one AMF3 format
@@ -112,6 +133,18 @@ Theorem c03_dispatch_create_stream_response t mt name tid o sid :
   decode_message t mt (carried mt (marshal p)) = (Ok p, tx_del t tid).
 Proof. exact (dispatch_create_stream_res t mt name tid o sid). Qed.
 
+(* connect's transaction id is fixed at 1.0: the peer rejects any other ("Invalid transaction
+   ID", code 23); closeStream is a generic call *)
+Theorem c03_connect_requires_tid_one t mt tid o a :
+  is_amf_type mt = true -> tid < 18446744073709551616 -> f_eq tid f_one = false ->
+  wf_propsb o = true -> wf_oprops a = true ->
+  decode_message t mt (carried mt (marshal (PConnect cConnect tid o a))) = (Err 23, t).
+Proof. exact (connect_requires_tid_one t mt tid o a). Qed.
+
+Theorem c03_close_stream t mt : is_amf_type mt = true ->
+  decode_message t mt (carried mt (marshal new_close_stream)) = (Ok new_close_stream, t).
+Proof. intros H. apply dispatch_request; [reflexivity|reflexivity|exact H]. Qed.
+
 (* a response without an outstanding request is an error, never a guess; the table is unchanged *)
 Theorem c03_dispatch_unmatched t mt p :
   wf_pkt p = true -> is_control p = false -> is_response_name (cmd_name p) = true ->
@@ -126,6 +159,51 @@ Theorem c03_dispatch_no_response_type t mt p rn :
   bytes_eqb rn cConnect = false -> bytes_eqb rn cCreateStream = false ->
   decode_message t mt (carried mt (marshal p)) = (Err 6, tx_del t (cmd_tid p)).
 Proof. exact (dispatch_response_other t mt p rn). Qed.
+
+(* ---- the model's switches are the source's ----
+   The translator regenerates, from rtmp.go on every run, the command-name switch of
+   parseAMFObject (with the response names, the request-name switch and whether the entry is
+   deleted after a successful lookup), the two message-type switches of DecodeMessage, the
+   types of requestTransaction's type switch and the constructors' default fields.  A generic
+   interpreter of those tables ([parse_tbl], [decode_tbl], Proofs/RtmpPacketGen.v) computes, for
+   EVERY command name, request name, table and message type, what the model computes -- so the
+   dispatch theorems above are about the switch that is in the source now. *)
+Theorem c03_source_parse_switch t name tid : parse_spec t name tid = parse_tbl t name tid.
+Proof. exact (parse_spec_is_source_table t name tid). Qed.
+
+Theorem c03_source_parse_model t name tid rest :
+  wf_strb name = true -> tid < 18446744073709551616 ->
+  parse_amf_object t (enc_hdr name tid ++ rest) = parse_tbl t name tid.
+Proof. intros Hn Ht. rewrite parse_amf_hdr by assumption. exact (parse_spec_is_source_table t name tid). Qed.
+
+Theorem c03_source_decode_switch t mt payload : decode_message t mt payload = decode_tbl t mt payload.
+Proof. exact (decode_message_is_source_table t mt payload). Qed.
+
+Theorem c03_source_request_types p :
+  request_transaction p =
+  if existsb (String.eqb (type_name p)) rtmp_tbl_request_types then (cmd_tid p, cmd_name p) else (0, []).
+Proof. exact (request_transaction_is_source_table p). Qed.
+
+Theorem c03_source_constructors :
+  (let '(n, t, o, _) := rtmp_tbl_ctor_NewConnectAppPacket in
+   o = "amf0.NewObject"%string /\ new_connect = PConnect (string_bytes n) (Z.to_N t) [] None) /\
+  (let '(n, _, o, _) := rtmp_tbl_ctor_NewConnectAppResPacket in
+   o = "amf0.NewObject"%string /\ forall tid, new_connect_res tid = PConnectRes (string_bytes n) tid [] None) /\
+  (let '(n, t, o, _) := variant_defaults rtmp_tbl_ctor_NewCallPacket in new_call = PCall n t o None) /\
+  (let '(n, t, o, _) := variant_defaults rtmp_tbl_ctor_NewCloseStreamPacket in new_close_stream = PCall n t o None) /\
+  (let '(n, t, o, _) := variant_defaults rtmp_tbl_ctor_NewCreateStreamPacket in new_create_stream = PCreateStream n t o) /\
+  (let '(n, _, o, _) := variant_defaults rtmp_tbl_ctor_NewCreateStreamResPacket in
+   forall tid, new_create_stream_res tid = PCreateStreamRes n tid o 0) /\
+  (let '(n, t, o, st) := variant_defaults rtmp_tbl_ctor_NewPublishPacket in new_publish = PPublish n t o [] st) /\
+  (let '(n, t, o, _) := variant_defaults rtmp_tbl_ctor_NewPlayPacket in new_play = PPlay n t o []).
+Proof. exact constructors_are_source_tables. Qed.
+
+(* the generated Size() bodies of the control packets (gen_funcs.go) are what the model uses *)
+Theorem c03_source_sizes et :
+  psize (PUserControl et 0 0) = gen_size (rtmp_UserControl_Size (Z.of_N et)) /\
+  psize (PUserControl et 0 0) = 2 + (if et =? 26 then 1 else 4) + (if et =? 3 then 4 else 0) /\
+  psize (PSetChunkSize 0) = 4 /\ psize (PWinAck 0) = 4 /\ psize (PSetPeerBw 0 0) = 5.
+Proof. repeat split. exact (uc_size_spec et). Qed.
 
 (* ---- transactions: the concrete table refines an abstract finite map ----
    For EVERY sequence of events -- [Sent p]: WritePacket of any packet; [Resp mt name tid rest]: a
@@ -183,6 +261,16 @@ Theorem c03_expect_packet want t pre t1 m p t2 post :
   decode_message t1 (fst m) (snd m) = (Ok p, t2) -> want p = true ->
   expect_packet want t (pre ++ m :: post) 0 = (Ok (N.of_nat (length pre), p), t2).
 Proof. exact (expect_packet_first want t pre t1 m p t2 post). Qed.
+
+(* In terms of traffic: [traffic_msg m p] -- m carries a well-formed control packet, or a
+   well-formed request / generic call in any command/data carrier.  ExpectPacket skips all such
+   control and command traffic that is not of the wanted type and returns the first that is;
+   the table is untouched. *)
+Theorem c03_expect_packet_traffic want t pre m p post :
+  Forall (fun m => exists q, traffic_msg m q /\ want q = false) pre ->
+  traffic_msg m p -> want p = true ->
+  expect_packet want t (pre ++ m :: post) 0 = (Ok (N.of_nat (length pre), p), t).
+Proof. exact (expect_packet_traffic want t pre m p post). Qed.
 
 (* Earlier traffic that does NOT decode is not skipped (per the code): the wait ends with that
    error -- audio (8), video (9), acknowledgement (3), abort (2) messages give "Unknown
@@ -298,12 +386,23 @@ Print Assumptions c03_roundtrip.
 Print Assumptions c03_remarshal.
 Print Assumptions c03_user_control.
 Print Assumptions c03_control_values.
+Print Assumptions c03_decoded_wellformed.
+Print Assumptions c03_decoded_fixed_point.
+Print Assumptions c03_decode_message_decoded.
 Print Assumptions c03_dispatch_request.
 Print Assumptions c03_dispatch_control.
 Print Assumptions c03_dispatch_connect_response.
 Print Assumptions c03_dispatch_create_stream_response.
+Print Assumptions c03_connect_requires_tid_one.
+Print Assumptions c03_close_stream.
 Print Assumptions c03_dispatch_unmatched.
 Print Assumptions c03_dispatch_no_response_type.
+Print Assumptions c03_source_parse_switch.
+Print Assumptions c03_source_parse_model.
+Print Assumptions c03_source_decode_switch.
+Print Assumptions c03_source_request_types.
+Print Assumptions c03_source_constructors.
+Print Assumptions c03_source_sizes.
 Print Assumptions c03_tx_refines_map.
 Print Assumptions c03_tx_step.
 Print Assumptions c03_tx_guard.
@@ -311,6 +410,7 @@ Print Assumptions c03_tx_never_registered.
 Print Assumptions c03_tx_only_positive_ids.
 Print Assumptions c03_tx_once.
 Print Assumptions c03_expect_packet.
+Print Assumptions c03_expect_packet_traffic.
 Print Assumptions c03_expect_packet_undecodable.
 Print Assumptions c03_unknown_message_type.
 Print Assumptions c03_expect_packet_read_error.
